@@ -2,6 +2,9 @@ module rulioharness
 
 go 1.14
 
-require github.com/Comcast/rulio v0.0.0
+require (
+	github.com/Comcast/rulio v0.0.0
+	github.com/robertkrimen/otto v0.0.0-20191219234010-c382bd3c16ff
+)
 
 replace github.com/Comcast/rulio => /repo
